@@ -104,7 +104,11 @@ CLAIMS["C04"] = dict(
          "(FcLemmas/Sim.lean) relating the PollState/output table and the counter to what the children answered. "
          "Future::join (Join2) is the tuple model at arity 2 by correspondence. The check re-proves, rebuilds the harness in "
          "std/alloc/no_std, runs join over arrays (0..200), Vecs, tuples 0..12 and Future::join on the real code, diffs the "
-         "poll/child-poll projection against the model and evaluates holds_C04 on the real traces.",
+         "poll/child-poll projection against the model and evaluates holds_C04 on the real traces. Theorem C04_poll_state (FcProps/C04state.lean): at every boundary of every history, while the join has "
+         "not finished, unwound or been dropped, slot i of the PollState table is Pending exactly when child i has not "
+         "resolved and Ready exactly when it has (the output slot then holds that very value), and the pending / completed "
+         "counter is the number of Pending / Ready slots - the table the real array/Vec join prints under {:?}, which the "
+         "harness logs after every poll and the driver compares with the model (flag eqPS).",
     note=TB, design_ref="DESIGN.md §7 C04")
 
 CLAIMS["C05"] = dict(
@@ -118,7 +122,9 @@ CLAIMS["C05"] = dict(
          "That Ok values already produced are dropped, not returned, is the value accounting of C02. Proof: World-free step "
          "invariant (Sim) relating the slot table and counter to what the children answered. The check re-proves, rebuilds "
          "the harness in std/alloc/no_std, runs try_join over arrays, Vecs and tuples 1..12 with every child as potential "
-         "first failure, diffs the poll/child-poll projection against the model and evaluates holds_C05 on the real traces.",
+         "first failure, diffs the poll/child-poll projection against the model and evaluates holds_C05 on the real traces. Theorem C05_poll_state (FcProps/C04state.lean): the same reading of the PollState table for try_join (Pending = "
+         "not resolved Ok, Ready = resolved Ok with the value in its slot, no error seen while alive, counter exact); the "
+         "real array/Vec try_join's {:?} table is compared with the model after every poll (eqPS).",
     note=TB, design_ref="DESIGN.md §7 C05")
 
 CLAIMS["C06"] = dict(
